@@ -325,6 +325,10 @@ func (w *World) Concretise(log string, r Req, stored *CP) Concrete {
 	ext := ""
 	if r.Ext == 1 {
 		ext = extText
+		if w.Rng.Intn(3) == 0 {
+			// extension data may contain an EMPTY line (a note is split from its signatures at the LAST blank line, not the first)
+			ext = "verif-extension before an empty line\n\n" + extText
+		}
 	}
 	text := ref.CheckpointText(l.Origin, c.Size, c.Root, ext)
 	c.Text = text
